@@ -1,4 +1,4 @@
-CONSTANTS N = 2 W <- W21 None <- NoneV MaxSeq = 5 MaxEv = 8 Forkers <- NoForkers HeadsOnly = TRUE LazyFrames = FALSE MaxOthers = 1
+CONSTANTS N = 2 W <- W21 None <- NoneV Rule <- StdRule MaxSeq = 5 MaxEv = 8 Forkers <- NoForkers HeadsOnly = TRUE LazyFrames = FALSE MaxOthers = 1
 SPECIFICATION Spec
 INVARIANTS AtroposIsRoot NoDoubleConfirm CheatersExact EmitState
 PROPERTY BlocksAppendOnly
